@@ -203,6 +203,32 @@ Theorem C04g_link_split_block :
 Proof. exact link_split_block. Qed.
 Print Assumptions C04g_link_split_block.
 
+Theorem C04g_link_block_elements :
+  forall (p : BasePartition) (i : N) (h : BlockHeader),
+       nth_error (BasePartition_block p) (N.to_nat i) = Some h ->
+       (BlockHeader_start h <= BlockHeader_end h <= length (BasePartition_segment p))%nat ->
+       option_map (map N.to_nat) (M_BasePartition_block_elements p i) =
+       Some (bp_elements (convbp p) (N.to_nat i)).
+Proof. exact link_block_elements. Qed.
+Print Assumptions C04g_link_block_elements.
+
+Theorem C04g_link_fp_block_elements :
+  forall (p : Partition) (i : N) (h : BlockHeader),
+       nth_error (BasePartition_block (Partition_base p)) (N.to_nat i) = Some h ->
+       (BlockHeader_start h <= BlockHeader_end h <=
+        length (BasePartition_segment (Partition_base p)))%nat ->
+       option_map (map N.to_nat) (M_Partition_block_elements p i) =
+       Some (bp_elements (fp_base (convfp p)) (N.to_nat i)).
+Proof. exact link_fp_block_elements. Qed.
+Print Assumptions C04g_link_fp_block_elements.
+
+Theorem C04g_link_block_elements_out :
+  forall (p : BasePartition) (i : N),
+       (length (BasePartition_block p) <= N.to_nat i)%nat ->
+       M_BasePartition_block_elements p i = None.
+Proof. exact link_block_elements_out. Qed.
+Print Assumptions C04g_link_block_elements_out.
+
 Theorem C04g_link_fp_num_blocks :
   forall p : Partition,
        fits (length (BasePartition_block (Partition_base p))) ->
@@ -267,6 +293,32 @@ Theorem C04g_block_read :
          (forall y : N, In y els <-> in_blk (convbp p) (N.to_nat i) (N.to_nat y)) /\ In x els.
 Proof. exact g_block_read. Qed.
 Print Assumptions C04g_block_read.
+
+Theorem C04g_block_elements :
+  forall (n : nat) (p : BasePartition) (i : N),
+       bp_wf n (convbp p) ->
+       N.of_nat n < 4294967296 ->
+       (1 <= N.to_nat i < nblk (convbp p))%nat ->
+       exists (sz : N) (els : list N),
+         M_BasePartition_block_size p i = Some sz /\
+         M_BasePartition_block_elements p i = Some els /\
+         N.to_nat sz = length els /\
+         (forall y : N, In y els <-> in_blk (convbp p) (N.to_nat i) (N.to_nat y)).
+Proof. exact g_block_elements. Qed.
+Print Assumptions C04g_block_elements.
+
+Theorem C04g_fp_block_elements :
+  forall (n : nat) (p : Partition) (i : N),
+       bp_wf n (convbp (Partition_base p)) ->
+       N.of_nat n < 4294967296 ->
+       (1 <= N.to_nat i < nblk (convbp (Partition_base p)))%nat ->
+       exists (sz : N) (els : list N),
+         M_Partition_block_size p i = Some sz /\
+         M_Partition_block_elements p i = Some els /\
+         N.to_nat sz = length els /\
+         (forall y : N, In y els <-> in_blk (convbp (Partition_base p)) (N.to_nat i) (N.to_nat y)).
+Proof. exact g_fp_block_elements. Qed.
+Print Assumptions C04g_fp_block_elements.
 
 Theorem C04g_split_block_total :
   forall (p : BasePartition) (i : N) (n : nat) (h : BlockHeader),
